@@ -279,8 +279,8 @@ theorem dropTrailing_neg (s : List Vec) :
   exact dropTrailing_aux _ _ _
 
 theorem adjustFirstRun_neg (s : List Vec) :
-    adjustFirstRun (s.map vneg) = ((adjustFirstRun s).1.map vneg, (adjustFirstRun s).2) := by
-  unfold adjustFirstRun
+    adjustFirstRunR (s.map vneg) = ((adjustFirstRunR s).1.map vneg, (adjustFirstRunR s).2) := by
+  unfold adjustFirstRunR
   have hl : ((s.map vneg).headD []).length = (s.headD []).length := by
     cases s <;> simp [length_vneg]
   have h0 : List.replicate (s.headD []).length (0 : Int) :: s.map vneg =
@@ -294,19 +294,19 @@ theorem negSt_init : negSt {} = {} := rfl
 /-- No two consecutive turning points handed to the HCM loop have the same first-node load (the
 very first one is compared with the initial previous load `0`). -/
 def NoTie (law : Law) (s : List Vec) : Prop :=
-  ChainNe 0 (procLoads {} (adjustFirstRun (dropTrailingNonReversals s)).1
-      (adjustFirstRun (dropTrailingNonReversals s)).2) ∧
-  ChainNe (process law {} (adjustFirstRun (dropTrailingNonReversals s)).1
-        (adjustFirstRun (dropTrailingNonReversals s)).2).prevLoad
-    (procLoads (process law {} (adjustFirstRun (dropTrailingNonReversals s)).1
-        (adjustFirstRun (dropTrailingNonReversals s)).2) (dropTrailingNonReversals s) true)
+  ChainNe 0 (procLoads {} (adjustFirstRunR (dropTrailingNonReversals s)).1
+      (adjustFirstRunR (dropTrailingNonReversals s)).2) ∧
+  ChainNe (process law {} (adjustFirstRunR (dropTrailingNonReversals s)).1
+        (adjustFirstRunR (dropTrailingNonReversals s)).2).prevLoad
+    (procLoads (process law {} (adjustFirstRunR (dropTrailingNonReversals s)).1
+        (adjustFirstRunR (dropTrailingNonReversals s)).2) (dropTrailingNonReversals s) true)
 
 instance (law : Law) (s : List Vec) : Decidable (NoTie law s) := by
   unfold NoTie; infer_instance
 
 theorem twoPass_neg {law : Law} (ho : OddLaw law) (s : List Vec) (ht : NoTie law s) :
-    twoPass law (s.map vneg) = negSt (twoPass law s) := by
-  unfold twoPass
+    twoPassR law (s.map vneg) = negSt (twoPassR law s) := by
+  unfold twoPassR
   simp only [dropTrailing_neg, adjustFirstRun_neg]
   have h1 := process_neg ho {} _ _ ht.1
   rw [negSt_init] at h1
@@ -315,8 +315,8 @@ theorem twoPass_neg {law : Law} (ho : OddLaw law) (s : List Vec) (ht : NoTie law
 /-- Version under the explicit no-tie hypothesis: here the complete final states are mirrored
 (`twoPass_neg`).  Superseded by `hcm_neg_mirror` below, which needs no hypothesis. -/
 theorem hcm_neg_mirror_partial (law : Law) (ho : OddLaw law) (s : List Vec) (ht : NoTie law s) :
-    (twoPass law (s.map vneg)).recs = (twoPass law s).recs.map mirror ∧
-    (twoPass law (s.map vneg)).strainValues = (twoPass law s).strainValues.map (- ·) := by
+    (twoPassR law (s.map vneg)).recs = (twoPassR law s).recs.map mirror ∧
+    (twoPassR law (s.map vneg)).strainValues = (twoPassR law s).strainValues.map (- ·) := by
   rw [twoPass_neg ho s ht]; exact ⟨rfl, rfl⟩
 
 
@@ -382,14 +382,14 @@ theorem process_neg_weak {law : Law} (ho : OddLaw law) (st : State) (samples : L
 runs take the same branch) occur only at the very last turning point of pass 2 (constant sequences);
 there the running strain extremes may differ from the mirror image but nothing is recorded any more. -/
 theorem hcm_neg_mirror (law : Law) (ho : OddLaw law) (s : List Vec) :
-    (twoPass law (s.map vneg)).recs = (twoPass law s).recs.map mirror ∧
-    (twoPass law (s.map vneg)).strainValues = (twoPass law s).strainValues.map (- ·) := by
-  have chains : ChainNe 0 (procLoads {} (adjustFirstRun (dropTrailingNonReversals s)).1
-        (adjustFirstRun (dropTrailingNonReversals s)).2) ∧
-      ChainNe (process law {} (adjustFirstRun (dropTrailingNonReversals s)).1
-          (adjustFirstRun (dropTrailingNonReversals s)).2).prevLoad
-        (procLoads (process law {} (adjustFirstRun (dropTrailingNonReversals s)).1
-          (adjustFirstRun (dropTrailingNonReversals s)).2) (dropTrailingNonReversals s) true).dropLast := by
+    (twoPassR law (s.map vneg)).recs = (twoPassR law s).recs.map mirror ∧
+    (twoPassR law (s.map vneg)).strainValues = (twoPassR law s).strainValues.map (- ·) := by
+  have chains : ChainNe 0 (procLoads {} (adjustFirstRunR (dropTrailingNonReversals s)).1
+        (adjustFirstRunR (dropTrailingNonReversals s)).2) ∧
+      ChainNe (process law {} (adjustFirstRunR (dropTrailingNonReversals s)).1
+          (adjustFirstRunR (dropTrailingNonReversals s)).2).prevLoad
+        (procLoads (process law {} (adjustFirstRunR (dropTrailingNonReversals s)).1
+          (adjustFirstRunR (dropTrailingNonReversals s)).2) (dropTrailingNonReversals s) true).dropLast := by
     by_cases h2 : ∃ a ∈ s.map rep, ∃ b ∈ s.map rep, a ≠ b
     · have hf := flush_of_twoDistinct s h2
       have := chains_of_flush law (dropTrailingNonReversals s) hf
@@ -407,8 +407,8 @@ theorem hcm_neg_mirror (law : Law) (ho : OddLaw law) (s : List Vec) :
       obtain ⟨l1, l2⟩ := loads_of_const law s _ hc
       rw [l1]
       refine ⟨trivial, ?_⟩
-      have : (procLoads (process law {} (adjustFirstRun (dropTrailingNonReversals s)).1
-          (adjustFirstRun (dropTrailingNonReversals s)).2) (dropTrailingNonReversals s) true).dropLast = [] := by
+      have : (procLoads (process law {} (adjustFirstRunR (dropTrailingNonReversals s)).1
+          (adjustFirstRunR (dropTrailingNonReversals s)).2) (dropTrailingNonReversals s) true).dropLast = [] := by
         apply List.eq_nil_of_length_eq_zero
         rw [List.length_dropLast]; omega
       rw [this]; trivial
@@ -421,7 +421,7 @@ theorem hcm_neg_mirror (law : Law) (ho : OddLaw law) (s : List Vec) :
 /-- the theorem applies to the linear stub law (and to constant and all-zero sequences, which the
 partial version excludes) -/
 example (s : List Vec) :
-    (twoPass lawLinear (s.map vneg)).recs = (twoPass lawLinear s).recs.map mirror :=
+    (twoPassR lawLinear (s.map vneg)).recs = (twoPassR lawLinear s).recs.map mirror :=
   (hcm_neg_mirror lawLinear oddLaw_linear s).1
 
 end C05
